@@ -363,6 +363,9 @@ func applyClause(c *Contract, kw, label, text, file string, line int) error {
 			return fmt.Errorf("%s:%d: bad loop clause", file, line)
 		}
 		n, err := strconv.Atoi(f[0])
+		if f[0] == "*" {
+			n, err = 0, nil // applies to every loop of the function
+		}
 		if err != nil {
 			return fmt.Errorf("%s:%d: bad loop ordinal", file, line)
 		}
